@@ -362,28 +362,26 @@ theorem feed_fill_ctlEq (s : Ssd) (c : UInt8) (hc : c = 0x24 ∨ c = 0x26) (data
 
 /-- the companion run: a RAM data block that is `ready` (fills its window from the origin) is
     skipped — the control state after it is the state before it; any other block is fed -/
-def compRun : Ssd → List Blk → Option Ssd
-  | e, [] => some e
+def compRun : Ssd → List Blk → Ssd
+  | e, [] => e
   | e, .c c ps :: bs =>
-    if c = 0x24 ∨ c = 0x26 then (if ready e ps.length then compRun e bs else none)
+    if (c = 0x24 ∨ c = 0x26) ∧ ready e ps.length = true then compRun e bs
     else compRun (e.feed (.c c ps)) bs
   | e, b :: bs => compRun (e.feed b) bs
 
-theorem compRun_sound : ∀ (bs bs0 : List Blk), ShapesEq bs bs0 → ∀ (r e e' : Ssd), CtlEq r e → WfSize r →
-    compRun e bs0 = some e' → CtlEq (bs.foldl feed r) e' ∧ WfSize (bs.foldl feed r)
-  | [], [], _, r, e, e', h, hw, hc => by
-    simp only [compRun, Option.some.injEq] at hc
-    exact ⟨hc ▸ h, hw⟩
-  | x :: xs, y :: ys, hs, r, e, e', h, hw, hc => by
+theorem compRun_sound : ∀ (bs bs0 : List Blk), ShapesEq bs bs0 → ∀ (r e : Ssd), CtlEq r e → WfSize r →
+    CtlEq (bs.foldl feed r) (compRun e bs0) ∧ WfSize (bs.foldl feed r)
+  | [], [], _, r, e, h, hw => ⟨h, hw⟩
+  | x :: xs, y :: ys, hs, r, e, h, hw => by
     simp only [List.foldl_cons]
     have hw' := feed_wf r x hw
     cases y with
     | rst =>
-      simp only [compRun] at hc
-      exact compRun_sound xs ys hs.2 _ _ e' (feed_ctlEq h hs.1) hw' hc
+      simp only [compRun]
+      exact compRun_sound xs ys hs.2 _ _ (feed_ctlEq h hs.1) hw'
     | stray _ =>
-      simp only [compRun] at hc
-      exact compRun_sound xs ys hs.2 _ _ e' (feed_ctlEq h hs.1) hw' hc
+      simp only [compRun]
+      exact compRun_sound xs ys hs.2 _ _ (feed_ctlEq h hs.1) hw'
     | c c ps0 =>
       cases x with
       | rst => exact absurd hs.1 (by simp [ShapeEq])
@@ -391,18 +389,16 @@ theorem compRun_sound : ∀ (bs bs0 : List Blk), ShapesEq bs bs0 → ∀ (r e e'
       | c c' ps =>
         obtain ⟨hcc, hp⟩ := hs.1
         subst hcc
-        simp only [compRun] at hc
-        by_cases hr : c' = 0x24 ∨ c' = 0x26
-        · rw [if_pos hr] at hc hp
-          by_cases hrd : ready e ps0.length = true
-          · rw [if_pos hrd] at hc
-            have hrd' : ready r ps.length = true := by rw [ready_ctlEq h, hp]; exact hrd
-            exact compRun_sound xs ys hs.2 _ e e' ((feed_fill_ctlEq r c' hr ps hw hrd').trans h) hw' hc
-          · rw [if_neg hrd] at hc; cases hc
-        · rw [if_neg hr] at hc
-          exact compRun_sound xs ys hs.2 _ _ e' (feed_ctlEq h hs.1) hw' hc
-  | [], _ :: _, hs, _, _, _, _, _, _ => absurd hs (by simp [ShapesEq])
-  | _ :: _, [], hs, _, _, _, _, _, _ => absurd hs (by simp [ShapesEq])
+        simp only [compRun]
+        by_cases hk : (c' = 0x24 ∨ c' = 0x26) ∧ ready e ps0.length = true
+        · rw [if_pos hk]
+          rw [if_pos hk.1] at hp
+          have hrd' : ready r ps.length = true := by rw [ready_ctlEq h, hp]; exact hk.2
+          exact compRun_sound xs ys hs.2 _ e ((feed_fill_ctlEq r c' hk.1 ps hw hrd').trans h) hw'
+        · rw [if_neg hk]
+          exact compRun_sound xs ys hs.2 _ _ (feed_ctlEq h hs.1) hw'
+  | [], _ :: _, hs, _, _, _, _ => absurd hs (by simp [ShapesEq])
+  | _ :: _, [], hs, _, _, _, _ => absurd hs (by simp [ShapesEq])
 
 /-- the core of the end-to-end argument, for ANY companion state in `CtlEq` with the real state
     at the moment the data block arrives -/
@@ -447,9 +443,8 @@ theorem ssd_e2e_core (blocks : List Blk) (s0 : Ssd) (k : Nat) (c : UInt8) (data 
 
 /-- everything the kernel checks on the skipping companion, in one Boolean -/
 def skipReady (e0 : Ssd) (pre : List Blk) (n wb stride : Nat) : Bool :=
-  match compRun e0 pre with
-  | some c => ready c n && c.xs == 0 && c.ys == 0 && c.xe + 1 == wb && c.stride == stride
-  | none => false
+  let c := compRun e0 pre
+  ready c n && c.xs == 0 && c.ys == 0 && c.xe + 1 == wb && c.stride == stride
 
 /-- the end-to-end theorem with the skipping companion and the window read off as numerals -/
 theorem ssd_e2e_skip (blocks blocks0 : List Blk) (hs : ShapesEq blocks blocks0) (s0 e0 : Ssd) (h0 : CtlEq s0 e0)
@@ -461,19 +456,17 @@ theorem ssd_e2e_skip (blocks blocks0 : List Blk) (hs : ShapesEq blocks blocks0) 
       (planeOf (planeOfCmd c) (blocks.foldl feed s0))[(j / wb) * stride + j % wb]? = some data[j] := by
   intro j hj
   unfold skipReady at hchk
-  split at hchk
-  · rename_i comp hcomp
-    simp only [Bool.and_eq_true, beq_iff_eq] at hchk
-    obtain ⟨⟨⟨⟨hrd, hxs⟩, hys⟩, hxe⟩, hst⟩ := hchk
-    have snd := compRun_sound _ _ (ShapesEq.take k hs) s0 e0 comp h0 hwf hcomp
-    have hpost' : (blocks.drop (k + 1)).all (fun b => !touches (planeOfCmd c) b) = true := by
-      rw [all_untouched_shape _ (ShapesEq.drop (k + 1) hs)]; exact hpost
-    have := ssd_e2e_core blocks s0 k c data hk hc comp snd.1 snd.2 (by rw [hn]; exact hrd) hpost' j hj
-    rw [hxs, hys, hst] at this
-    have e : comp.xe - 0 + 1 = wb := by rw [← hxe]; omega
-    rw [e] at this
-    simpa using this
-  · cases hchk
+  simp only [Bool.and_eq_true, beq_iff_eq] at hchk
+  obtain ⟨⟨⟨⟨hrd, hxs⟩, hys⟩, hxe⟩, hst⟩ := hchk
+  have snd := compRun_sound _ _ (ShapesEq.take k hs) s0 e0 h0 hwf
+  generalize compRun e0 (blocks0.take k) = comp at hrd hxs hys hxe hst snd
+  have hpost' : (blocks.drop (k + 1)).all (fun b => !touches (planeOfCmd c) b) = true := by
+    rw [all_untouched_shape _ (ShapesEq.drop (k + 1) hs)]; exact hpost
+  have := ssd_e2e_core blocks s0 k c data hk hc comp snd.1 snd.2 (by rw [hn]; exact hrd) hpost' j hj
+  rw [hxs, hys, hst] at this
+  have e : comp.xe - 0 + 1 = wb := by rw [← hxe]; omega
+  rw [e] at this
+  simpa using this
 
 end Ssd
 end EpdVerif
